@@ -1,6 +1,9 @@
 """C03 — emitted documents conform to the published wire format.  Same cases, model and typed correspondence
-as C02 (harness/props/c02.py, coq/run/C02Run.v: mon3 = python-jsonschema verdict, index sanity, nodes listed in
-index order with the root first, port addressing by the reader's contract).
+as C02 (harness/props/c02.py, coq/run/C02Run.v: mon3 = python-jsonschema verdict, index sanity, the document lists
+the nodes of the HUGR in SOME admissible order with the root first -- the order the writer chose, found by
+c02.listing_order and checked in Coq; "increasing index" is C02's licence, not a clause of C03 --, port addressing by the
+reader's contract; documents compared up to the order of the edges array, the writing of the metadata table and the
+optional encoder member: design.d/C03.md "False alarms corrected (harmless changes)").
 
 Second pass (coq/run/C03SchemaRun.v, harness/c03_coqschema.py): every document a case emits — exactly the texts
 the python-jsonschema server is asked about: HUGR documents, Package documents, Extension documents, lowering
